@@ -47,3 +47,14 @@ func CurID() int {
 }
 
 func ptrDesc(kind string, p interface{}) string { return fmt.Sprintf("%s %p", kind, p) }
+
+// Choose is an explicit environment choice made by the harness (a scripted peer fails or not, …).
+// Alternative 0 is the default answer; any other answer is a deviation (costs 1 under deviation
+// bounding).
+func Choose(n int, desc string) int {
+	t := curThread()
+	if t == nil || t.abort || n <= 1 {
+		return 0
+	}
+	return active.choice(n, false, false, desc)
+}
